@@ -155,58 +155,169 @@ def _tr_nst_run():
     raise TranslateError(f"{where}: unrecognised way of setting the is_up event")
 
 
+def _callback_role(fn, expr):
+    """what an exit-stack callback of the standalone serve_forever does: 'set' (event.set), 'reset' (forgets portal and
+    server), 'reacquire' (takes the bootstrap lock again); identified by what it does, not by its name"""
+    import ast
+    src = ast.unparse(expr)
+    if src.endswith(".set") and "__is_closed" not in src:
+        return "set"
+    if isinstance(expr, ast.Name):
+        for node in ast.walk(fn):
+            if isinstance(node, ast.FunctionDef) and node.name == expr.id:
+                body = ast.unparse(node)
+                if "__threads_portal = None" in body and "__server = None" in body:
+                    return "reset"
+                if "__bootstrap_lock.get()" in body and "enter_context" in body:
+                    return "reacquire"
+    return None
+
+
 def _tr_standalone_exit_order():
     """BaseStandaloneNetworkServerImpl.serve_forever: the exit stack must unwind as
-    re-acquire the bootstrap lock -> reset_values -> is_shutdown.set(), i.e. be registered in the opposite order
+    re-acquire the bootstrap lock -> reset (portal, server) -> event.set(), i.e. be registered in the opposite order
     (the thread-level model's tear-down segment V5 is exactly that).  Fail closed otherwise."""
     import ast
     fn = _find_def(_parse(_BASE), "BaseStandaloneNetworkServerImpl", "serve_forever")
     order = []
     for node in ast.walk(fn):
-        if isinstance(node, ast.Expr) and isinstance(node.value, ast.Call):
-            src = ast.unparse(node.value)
-            if src.startswith("server_exit_stack.callback("):
-                order.append((node.lineno, src[len("server_exit_stack.callback("):-1]))
-    names = [n for _l, n in sorted(order)]
-    expected = ["is_shutdown.set", "reset_values", "reacquire_bootstrap_lock_on_shutdown"]
-    alt = ["self.__is_shutdown.set", "reset_values", "reacquire_bootstrap_lock_on_shutdown"]   # shape before 092d2b8
-    if names not in (expected, alt):
+        if isinstance(node, ast.Expr) and isinstance(node.value, ast.Call) and isinstance(node.value.func, ast.Attribute) \
+                and node.value.func.attr == "callback" and node.value.args:
+            role = _callback_role(fn, node.value.args[0])
+            if role is not None:
+                order.append((node.lineno, role))
+    roles = [r for _l, r in sorted(order)]
+    if roles != ["set", "reset", "reacquire"]:
         raise TranslateError("_base.py BaseStandaloneNetworkServerImpl.serve_forever: exit-stack callbacks are registered as "
-                             f"{names}; the tear-down must unwind as re-acquire lock -> reset_values -> is_shutdown.set")
+                             f"{roles}; the tear-down must unwind as re-acquire lock -> reset portal/server -> event.set")
+
+
+def _tr_lock_order():
+    """Order in which standalone serve_forever / server_close take the close lock and the bootstrap lock, and whether
+    serve_forever tests __is_closed under the close lock.  -> (serve_first, closed_under_lock, close_first)"""
+    import ast
+    fn = _find_def(_parse(_BASE), "BaseStandaloneNetworkServerImpl", "serve_forever")
+    where = "_base.py BaseStandaloneNetworkServerImpl.serve_forever"
+    events = []
+
+    def visit(node):
+        if isinstance(node, (ast.FunctionDef, ast.AsyncFunctionDef, ast.Lambda)) and node is not fn:
+            return          # nested helpers run later (tear-down, the serving coroutine)
+        if isinstance(node, ast.Call) and isinstance(node.func, ast.Attribute) and node.func.attr == "enter_context" and node.args:
+            src = ast.unparse(node.args[0])
+            if "__close_lock" in src:
+                events.append((node.lineno, node.col_offset, "acq-close"))
+            elif "__bootstrap_lock" in src:
+                events.append((node.lineno, node.col_offset, "acq-boot"))
+        if isinstance(node, ast.If) and any(isinstance(b, ast.Raise) for b in node.body):
+            t = ast.unparse(node.test)
+            if "__is_closed" in t:
+                events.append((node.lineno, node.col_offset, "chk-closed"))
+            elif "__is_shutdown" in t:
+                events.append((node.lineno, node.col_offset, "chk-running"))
+        for ch in ast.iter_child_nodes(node):
+            visit(ch)
+
+    visit(fn)
+    seq = [e for _l, _c, e in sorted(events)]
+    if sorted(seq) != ["acq-boot", "acq-close", "chk-closed", "chk-running"]:
+        raise TranslateError(f"{where}: expected one acquisition of each lock and one test of each flag, found {seq}")
+    if seq.index("chk-running") < seq.index("acq-boot"):
+        raise TranslateError(f"{where}: the 'already running' test is not made under the bootstrap lock")
+    serve_first = "LClose" if seq.index("acq-close") < seq.index("acq-boot") else "LBoot"
+    closed_under_lock = seq.index("chk-closed") > seq.index("acq-close")
+    # server_close: outermost with = close lock, the bootstrap lock is taken by _run_sync_or_else inside it
+    sc = _find_def(_parse(_BASE), "BaseStandaloneNetworkServerImpl", "server_close")
+    rs = _find_def(_parse(_BASE), "BaseStandaloneNetworkServerImpl", "_run_sync_or_else")
+    withs = [n for n in sc.body if isinstance(n, ast.With)]
+    if len(withs) != 1 or "__close_lock" not in ast.unparse(withs[0].items[0].context_expr):
+        raise TranslateError("_base.py BaseStandaloneNetworkServerImpl.server_close: does not start by taking the close lock")
+    inner = ast.unparse(withs[0])
+    if "_run_sync_or" not in inner or "__bootstrap_lock" in inner:
+        raise TranslateError("_base.py BaseStandaloneNetworkServerImpl.server_close: unexpected use of the locks")
+    rw = [n for n in rs.body if isinstance(n, ast.With)]
+    if len(rw) != 1 or "__bootstrap_lock" not in ast.unparse(rw[0].items[0].context_expr):
+        raise TranslateError("_base.py BaseStandaloneNetworkServerImpl._run_sync_or_else: does not run under the bootstrap lock")
+    return serve_first, closed_under_lock, "LClose"
+
+
+def _probe(case, what):
+    """behavioural extraction: run the REAL code on a witness scenario (used when a function has an unknown shape)"""
+    try:
+        return run_impl(case)
+    except Exception as exc:
+        raise TranslateError(f"behavioural probe for {what} failed: {exc.__class__.__name__}: {exc}")
 
 
 def params():
-    """coq/Gen/ParamsC18.v: whether the datagram server guards the restart of a client task at tear-down.
-    Fail closed: only the two known shapes of the two functions are accepted."""
+    """coq/Gen/ParamsC18.v.  Every parameter is read from the AST when the shape is known; when a function has been
+    rewritten into an unknown shape its behaviour on the witness scenario of that parameter is observed on the REAL code
+    instead (each of these scenarios is also an oracle-checked corpus case, and a theorem depends on the parameter where
+    its wrong value breaks the property)."""
+    notes = []
     key = (anchor_digest(_DGRAM, "AsyncDatagramServer.__client_coroutine"),
            anchor_digest(_DGRAM, "AsyncDatagramServer.__on_client_coroutine_task_done"))
-    if key not in _UDP_RESTART_SHAPES:
-        raise TranslateError("datagram.py AsyncDatagramServer.__client_coroutine / __on_client_coroutine_task_done have an "
-                             f"unknown shape {key}: the tear-down behaviour of queued datagrams must be re-modelled")
+    if key in _UDP_RESTART_SHAPES:
+        udp_guarded = _UDP_RESTART_SHAPES[key]
+    else:
+        obs = _probe([1, [0, 0, 0], [0, 9, 1]], "udp_restart_guarded")
+        udp_guarded = obs[-1][0][0] == 1
+        notes.append(f"udp_restart_guarded: behavioural (unknown shape {key}): serve, queued datagram, shutdown -> {obs[-1][0]}")
     key2 = anchor_digest(_BASE, "BaseStandaloneNetworkServerImpl.shutdown")
-    if key2 not in _SHUTDOWN_SHAPES:
-        raise TranslateError(f"_base.py BaseStandaloneNetworkServerImpl.shutdown has an unknown shape {key2}: the wait on the "
-                             "threading event must be re-modelled")
-    nst = _tr_nst_run()
-    _tr_standalone_exit_order()
+    if key2 in _SHUTDOWN_SHAPES:
+        shutdown_guarded = _SHUTDOWN_SHAPES[key2]
+    else:
+        obs = _probe([2, [0, 0, 0], [10, 0, 11]], "standalone_shutdown_guarded")
+        shutdown_guarded = obs[-1][0][0] == 1
+        notes.append(f"standalone_shutdown_guarded: behavioural (unknown shape {key2}): pre-empted shutdown, serve, resume -> {obs[-1][0]}")
+    try:
+        nst = _tr_nst_run()
+    except TranslateError as exc:
+        obs = _probe([2, [0, 1, 0], [12, 1]], "nst_sets_up_in_finally")
+        nst = obs[-1][0][0] == 1
+        notes.append(f"nst_sets_up_in_finally: behavioural ({exc}): start with set-up held, shutdown -> {obs[-1][0]}")
+    try:
+        _tr_standalone_exit_order()
+    except TranslateError as exc:
+        obs = _probe([2, [0, 0, 1], [0, 1]], "the tear-down order of the standalone serve_forever")
+        if obs[-1][0] != [0, 0]:
+            raise TranslateError(f"{exc}; and behaviourally shutdown() returns before the serving thread has reset its state: {obs[-1][0]}")
+        notes.append(f"tear-down order: behavioural ({exc})")
     key3 = (anchor_digest(_BASE, "BaseStandaloneNetworkServerImpl._run_sync_or_else"),
             anchor_digest(_BASE, "BaseStandaloneNetworkServerImpl.server_close"))
-    if key3 not in _CLOSE_SHAPES:
-        raise TranslateError(f"_base.py BaseStandaloneNetworkServerImpl._run_sync_or_else / server_close have an unknown shape {key3}")
-    return ("(* _base.py standalone server_close(): does the BusyResourceError of the close guard reach the caller (and leave "
-            "__is_closed unset)? *)\n"
-            f"Definition standalone_close_propagates_busy : bool := {'true' if _CLOSE_SHAPES[key3] else 'false'}.\n"
-            "(* threads_helper.py NetworkServerThread.run: is_up_event.set() in a finally clause (else: only on an exception) *)\n"
-            f"Definition nst_sets_up_in_finally : bool := {'true' if nst else 'false'}.\n"
+    if key3 in _CLOSE_SHAPES:
+        close_busy = _CLOSE_SHAPES[key3]
+    else:
+        obs = _probe([2, [0, 1, 0], [0, 2, 7]], "standalone_close_propagates_busy")
+        close_busy = obs[1][0][1] == 4
+        notes.append(f"standalone_close_propagates_busy: behavioural (unknown shape {key3}): serve held in set-up, close -> {obs[1][0]}")
+    serve_first, closed_under_lock, close_first = _tr_lock_order()
+
+    def b(x):
+        return "true" if x else "false"
+
+    return ("".join("(* " + n.replace("(*", "( *").replace("*)", "* )") + " *)\n" for n in notes)
+            + "(* threads_helper.py NetworkServerThread.run: is_up_event.set() in a finally clause (else: only on an exception) *)\n"
+            f"Definition nst_sets_up_in_finally : bool := {b(nst)}.\n"
             "(* datagram.py: is the restart of a client task skipped when that task was cancelled (server tear-down)? *)\n"
-            f"Definition udp_restart_guarded : bool := {'true' if _UDP_RESTART_SHAPES[key] else 'false'}.\n"
+            f"Definition udp_restart_guarded : bool := {b(udp_guarded)}.\n"
             "(* _base.py standalone shutdown(): does it wait for the event of the run it saw under the bootstrap lock? *)\n"
-            f"Definition standalone_shutdown_guarded : bool := {'true' if _SHUTDOWN_SHAPES[key2] else 'false'}.\n")
+            f"Definition standalone_shutdown_guarded : bool := {b(shutdown_guarded)}.\n"
+            "(* _base.py standalone server_close(): does the BusyResourceError of the close guard reach the caller (and leave "
+            "__is_closed unset)? *)\n"
+            f"Definition standalone_close_propagates_busy : bool := {b(close_busy)}.\n"
+            "(* _base.py standalone: order in which serve_forever / server_close take the close lock and the bootstrap lock;\n"
+            "   is the __is_closed test of serve_forever made under the close lock? *)\n"
+            "Inductive lockid := LClose | LBoot.\n"
+            f"Definition serve_first_lock : lockid := {serve_first}.\n"
+            f"Definition serve_closed_check_under_lock : bool := {b(closed_under_lock)}.\n"
+            f"Definition close_first_lock : lockid := {close_first}.\n")
 
 
 L_SERVE, L_SHUTDOWN, L_CLOSE, L_CONNECT, L_DISCONNECT, L_OBSERVE, L_REL_FACTORY, L_REL_INIT, L_REL_CLIENT, L_UDPQ = range(10)
 L_PRE_SHUTDOWN, L_RESUME, L_NST_START = 10, 11, 12
-CALLS = (L_SERVE, L_SHUTDOWN, L_CLOSE, L_PRE_SHUTDOWN)
+L_SERVE_P1, L_SERVE_P2, L_CLOSE_P2, L_REL_PAUSE = 13, 14, 15, 16
+CALLS = (L_SERVE, L_SHUTDOWN, L_CLOSE, L_PRE_SHUTDOWN, L_SERVE_P1, L_SERVE_P2, L_CLOSE_P2)
 
 
 def _port_bound(kind, addr):
@@ -643,20 +754,31 @@ def _run_standalone(inp):
     else:
         from easynetwork.servers.standalone_udp import StandaloneUDPNetworkServer
         srv = StandaloneUDPNetworkServer("127.0.0.1", 0, DatagramProtocol(StringLineSerializer()), DH(), logger=logger)
-    # tear-down gate: the serving thread is held back right before it RE-acquires the bootstrap lock at the end of
-    # serve_forever (second acquisition by that thread), i.e. between two callbacks of its exit stack
+    # Both locks of the wrapper are replaced (ForkSafeLock's own lock_factory) by re-entrant locks with two kinds of gate:
+    #  * tear-down gate: the serving thread is held back right before it RE-acquires the bootstrap lock at the end of
+    #    serve_forever (its second acquisition of that lock), i.e. between two callbacks of its exit stack;
+    #  * pause gate: a call whose thread is named "...-p<k>-..." is held back right before its k-th lock acquisition
+    #    (counted over both locks), i.e. between any two lock acquisitions of serve_forever / server_close.
     teardown_gate = threading.Event()
-    if gate_teardown:
+    pause_gate = threading.Event()
+    pause_labels = (L_SERVE_P1, L_SERVE_P2, L_CLOSE_P2)
+    if gate_teardown or any(lab in pause_labels for lab in labels):
         from easynetwork.lowlevel._lock import ForkSafeLock
+        acquisitions = {}                 # thread name -> lock acquisitions so far, over both locks
 
         class GatedRLock:
-            def __init__(self):
+            def __init__(self, is_bootstrap):
                 self._lock = threading.RLock()
+                self._is_bootstrap = is_bootstrap
                 self._count = {}
 
             def acquire(self, *a, **kw):
                 t = threading.current_thread()
-                if t.name.startswith("c18-serve"):
+                k = acquisitions.get(t.name, 0) + 1
+                if f"-p{k}-" in t.name:
+                    pause_gate.wait(GATE_WAIT)
+                acquisitions[t.name] = k
+                if gate_teardown and self._is_bootstrap and t.name.startswith("c18-serve"):
                     self._count[t.name] = self._count.get(t.name, 0) + 1
                     if self._count[t.name] == 2:
                         teardown_gate.wait(GATE_WAIT)
@@ -672,7 +794,8 @@ def _run_standalone(inp):
             def __exit__(self, *exc):
                 self.release()
 
-        setattr(srv, "_BaseStandaloneNetworkServerImpl__bootstrap_lock", ForkSafeLock(GatedRLock))
+        setattr(srv, "_BaseStandaloneNetworkServerImpl__bootstrap_lock", ForkSafeLock(lambda: GatedRLock(True)))
+        setattr(srv, "_BaseStandaloneNetworkServerImpl__close_lock", ForkSafeLock(lambda: GatedRLock(False)))
     # exceptions ending a NetworkServerThread are only visible through threading.excepthook
     thread_excs = {}
     old_excepthook = threading.excepthook
@@ -747,11 +870,21 @@ def _run_standalone(inp):
                 calls.append(_ThreadStatus(nst))
             elif lab == L_PRE_SHUTDOWN:
                 calls.append(_Call(srv.shutdown, f"c18-pshutdown-{n}"))
+            elif lab == L_SERVE_P1:
+                calls.append(_Call(srv.serve_forever, f"c18-serve-p1-{n}"))
+            elif lab == L_SERVE_P2:
+                calls.append(_Call(srv.serve_forever, f"c18-serve-p2-{n}"))
+            elif lab == L_CLOSE_P2:
+                calls.append(_Call(srv.server_close, f"c18-close-p2-{n}"))
+            elif lab == L_REL_PAUSE:
+                pause_gate.set()
             elif lab == L_RESUME:
                 resume.set()
             _quiesce()
             if lab == L_REL_CLIENT:
                 teardown_gate.clear()      # one-shot: a release with nobody at the gate is not remembered
+            if lab == L_REL_PAUSE:
+                pause_gate.clear()
             if in_window.is_set():
                 serving = listening = 0        # is_serving() would block on the bootstrap lock: that is the window
             else:
@@ -771,6 +904,7 @@ def _run_standalone(inp):
     finally:
         never.set()
         resume.set()
+        pause_gate.set()
         _base_mod._threading = real_threading
         window_gate.set()
         gate_init = False
@@ -824,6 +958,20 @@ def _mk(kind, gates, labels, extra=()):
 
 
 def cases(tier, rng, escalate):
+    """quick: the threaded cases of the UDP flavour are thinned out (one in three of the gate families: the wrapper under
+    test is the same class as for TCP); thorough / escalated: everything"""
+    thorough = tier == "thorough" or escalate
+    thin = {"between-locks", "setup-held", "startup-window", "teardown-window"}
+    n = 0
+    for c in _cases(tier, rng, escalate):
+        if not thorough and c["input"][0] == 3 and thin & set(c["tags"]) and "refused-close" not in c["tags"]:
+            n += 1
+            if n % 3:
+                continue
+        yield c
+
+
+def _cases(tier, rng, escalate):
     thorough = tier == "thorough" or escalate
     maxlen = 5 if thorough else 4
     base = [L_SERVE, L_SHUTDOWN, L_CLOSE, L_CONNECT, L_DISCONNECT]
@@ -894,6 +1042,21 @@ def cases(tier, rng, escalate):
                     yield _mk(kind, (0, 0, 0), seq, ["server-thread"])
         for seq in ([12, 1, 8, 0, 8], [12, 2, 12, 8], [0, 1, 12, 8, 1, 8]):
             yield _mk(kind, (0, 0, 1), seq, ["teardown-window", "server-thread"])
+    # a call held between two of its lock acquisitions (serve_forever before its 1st / 2nd lock, server_close before its
+    # 2nd), one other call meanwhile (threading locks are not FIFO), release, follow-up
+    for kind in (2, 3):
+        for pre in ([], [L_SERVE]):
+            for held_call in (L_SERVE_P1, L_SERVE_P2, L_CLOSE_P2):
+                for inside in (None, L_SERVE, L_SHUTDOWN, L_CLOSE):
+                    for after in ([], [L_SHUTDOWN], [L_CLOSE], [L_SERVE], [L_SHUTDOWN, L_SERVE, L_SHUTDOWN]):
+                        if not thorough and pre and after not in ([], [L_SHUTDOWN]):
+                            continue
+                        seq = pre + [held_call] + ([inside] if inside is not None else []) + [L_REL_PAUSE] + after
+                        yield _mk(kind, (0, 0, 0), seq, ["between-locks"])
+    # restart after a server_close() that was REFUSED (BusyResourceError while the set-up is held)
+    for kind in (2, 3):
+        for seq in ([0, 2, 7, 1, 0], [0, 2, 1, 0], [12, 2, 7, 1, 12, 1], [0, 2, 2, 7, 1, 0, 1], [0, 2, 7, 2, 0], [0, 2, 7, 1, 0, 2, 0]):
+            yield _mk(kind, (0, 1, 0), seq, ["setup-held", "refused-close"])
     # shutdown() pre-empted between its locked section and its event wait
     for kind in (2, 3):
         for seq in ([10, 11], [10, 0, 11], [10, 0, 11, 1], [0, 10, 11], [0, 10, 0, 11], [10, 2, 11], [10, 0, 2, 11],
@@ -926,12 +1089,21 @@ def oracle(inp):
     for lab in labels:
         if lab == L_NST_START:
             call_kinds += [L_NST_START, L_SERVE]     # the start() call, then the serve_forever of the thread it started
+        elif lab in (L_SERVE_P1, L_SERVE_P2):
+            call_kinds.append(L_SERVE)               # a serve_forever call (held by the harness between two lock acquisitions)
+        elif lab == L_CLOSE_P2:
+            call_kinds.append(L_CLOSE)
         elif lab in CALLS:
             call_kinds.append(lab)
     closed_ok_at = None          # index of the first observation after a server_close returned normally
     prev = []
     ci = 0
+    held_slots = set()      # slots of calls the harness holds between two lock acquisitions (not running, not refused yet)
     for step, (lab, (st, serving, listening, bound)) in enumerate(zip(labels, obs)):
+        if lab in (L_SERVE_P1, L_SERVE_P2, L_CLOSE_P2):
+            held_slots.add(len(st) - 1)
+        elif lab == L_REL_PAUSE:
+            held_slots.clear()
         if lab in CALLS:
             ci += 1
         kinds = call_kinds[:len(st)]
@@ -945,12 +1117,15 @@ def oracle(inp):
                 return f"a lifecycle call was cancelled from inside [kind={kind} labels={labels[:step + 1]}]"
         # a second concurrent serve_forever is refused
         # (inside the gated start-up window of a standalone server a pending call may simply be blocked on a lock)
-        in_window = kind in (2, 3) and gates[0] == 1
-        running = [i for i, (k, s) in enumerate(zip(kinds, st)) if k == L_SERVE and s == 0]
+        in_window = (kind in (2, 3) and gates[0] == 1) or bool(held_slots)
+        running = [i for i, (k, s) in enumerate(zip(kinds, st)) if k == L_SERVE and s == 0 and i not in held_slots]
         if len(running) > 1 and not in_window:
             return f"two serve_forever calls are running concurrently [kind={kind} labels={labels[:step + 1]}]"
         if lab == L_SERVE and len(prev) < len(st):
-            was_running = any(k == L_SERVE and s == 0 for k, s in zip(call_kinds, prev))
+            was_running = any(k == L_SERVE and s == 0 and i not in held_slots for i, (k, s) in enumerate(zip(call_kinds, prev)))
+            if st[-1] == 3 and closed_ok_at is None:
+                return (f"serve_forever refused with ServerClosedError although no server_close() has succeeded "
+                        f"[kind={kind} labels={labels[:step + 1]}]")
             if in_window and st[-1] == 0:
                 pass
             elif was_running and closed_ok_at is not None:
@@ -967,7 +1142,8 @@ def oracle(inp):
                 newer = any(k2 == L_SERVE and s2 == 0 for k2, s2 in zip(kinds[i + 1:], st[i + 1:]))
                 if serving and not newer:
                     return f"shutdown returned while the server is still serving [kind={kind} labels={labels[:step + 1]}]"
-                older_running = any(k2 == L_SERVE and s2 == 0 for k2, s2 in zip(kinds[:i], st[:i]))
+                older_running = any(k2 == L_SERVE and s2 == 0 and j not in held_slots
+                                    for j, (k2, s2) in enumerate(zip(kinds[:i], st[:i])))
                 if older_running:
                     return (f"shutdown returned while the serve_forever call it stopped has not returned "
                             f"[kind={kind} labels={labels[:step + 1]}]")
@@ -987,6 +1163,17 @@ def oracle(inp):
         if closed_ok_at is not None and (listening or bound):
             return f"listeners still open after server_close returned [kind={kind} labels={labels[:step + 1]}]"
         prev = st
+    # no deadlock: once nothing is held back by the harness a server_close() never stays pending, and a query of the
+    # server is never blocked
+    held = (gates[0] and L_REL_FACTORY not in labels[-1:]) or any(lab in (L_SERVE_P1, L_SERVE_P2, L_CLOSE_P2) for lab in labels) \
+        and labels[-1] != L_REL_PAUSE and L_REL_PAUSE not in labels[max(i for i, lab in enumerate(labels) if lab in (L_SERVE_P1, L_SERVE_P2, L_CLOSE_P2)):]
+    if obs and not held and not any(gates) and L_PRE_SHUTDOWN not in labels:
+        st, serving = obs[-1][0], obs[-1][1]
+        kinds = call_kinds[:len(st)]
+        if serving == 2:
+            return f"is_serving() blocks although nothing is held back: the locks are deadlocked [kind={kind} labels={labels}]"
+        if any(k == L_CLOSE and s == 0 for k, s in zip(kinds, st)):
+            return f"server_close() still pending although nothing is held back [kind={kind} labels={labels}]"
     # no deadlock: with every gate released and a final shutdown, every call must have ended
     if all(g == 0 for g in gates) and labels and labels[-1] == L_SHUTDOWN:
         st = obs[-1][0]
